@@ -258,14 +258,18 @@ Definition env_go (ev : string -> envdef -> M chain)
         match s with
         | Some i =>
             if is_evaluating i then err ;;; go rest base my
-            else proceed (match is_value i with Some v => v | None => [] end)
+            else match is_value i with
+                 | Some v => proceed v
+                 | None => go rest base my
+                 end
         | None =>
             failed <- call W ;;
             emit (EvLoad n) ;;;
+            let remember_failure := imps_set n {| is_evaluating := false; is_value := None |} in
             match (if failed then LoadFail
                    else match alookup n (w_envs W) with Some l => l | None => LoadFail end) with
-            | LoadFail => err ;;; go rest base my
-            | LoadNoParse => err ;;; go rest base my
+            | LoadFail => err ;;; remember_failure ;;; go rest base my
+            | LoadNoParse => err ;;; remember_failure ;;; go rest base my
             | LoadOk d' =>
                 v <- ev n d' ;;
                 imps_set n {| is_evaluating := false; is_value := Some v |} ;;;
@@ -284,7 +288,7 @@ Definition env_body
   (ev : string -> string -> envdef -> M chain)                       (* root', name, def *)
   (ee : ectx -> expr -> bool -> chain -> eid -> M chain)
   (root name : string) (d : envdef) : M chain :=
-    let root' := if String.eqb root "" then name else root in
+    let root' := if String.eqb root "" || String.eqb root "<yaml>" then name else root in
     imps_set name {| is_evaluating := true; is_value := None |} ;;;
     r <- env_go (ev root') (ed_imports d) [] [] ;;
     let '(base, my) := r in
@@ -363,14 +367,16 @@ Lemma env_go_cons ev n merge rest base my :
    match s with
    | Some i =>
        if is_evaluating i then err ;;; env_go ev rest base my
-       else env_go ev rest (if merge then (match is_value i with Some v => v | None => [] end) ++ base else base)
-                   (ainsert n (match is_value i with Some v => v | None => [] end) my)
+       else match is_value i with
+            | Some v => env_go ev rest (if merge then v ++ base else base) (ainsert n v my)
+            | None => env_go ev rest base my
+            end
    | None =>
        failed <- call W ;;
        emit (EvLoad n) ;;;
        match load_result failed n with
-       | LoadFail => err ;;; env_go ev rest base my
-       | LoadNoParse => err ;;; env_go ev rest base my
+       | LoadFail => err ;;; imps_set n {| is_evaluating := false; is_value := None |} ;;; env_go ev rest base my
+       | LoadNoParse => err ;;; imps_set n {| is_evaluating := false; is_value := None |} ;;; env_go ev rest base my
        | LoadOk d' =>
            v <- ev n d' ;;
            imps_set n {| is_evaluating := false; is_value := Some v |} ;;;
